@@ -318,6 +318,35 @@ def gen_lifecycle(rng, idx):
         s.quiesce()
         s.add(op="cancel_all"); s.add(op="drain")
         return s.out()
+    if r.random() < 0.15:
+        # the handshake succeeds and the terminal call lands within the next few handlers (between the completion of
+        # connect_op, the cancelled connect timer's completion, and the stream being swapped in); first connection or reconnect
+        s2 = Sc(rng, "life-%d" % idx)
+        s2.cfg(hosts=r.choice([1, 2]), ka=r.choice([0, 10]), tseed=r.randrange(1, 1 << 30))
+        first = r.random() < 0.5
+        if not first:
+            s2.run(); s2.recv()
+            if r.random() < 0.5: s2.pub(1)
+            s2.quiesce(ms=30000)
+            s2.add(op="hold", kinds=["CONNACK"])
+            fault_step(s2)
+            s2.add(op="advance", ms=r.choice([1, 2000]))
+        else:
+            s2.add(op="hold", kinds=["CONNACK"])
+            s2.run()
+            if r.random() < 0.6: s2.recv()
+            if r.random() < 0.5: s2.pub(r.choice([0, 1]))
+            s2.add(op="advance", ms=1)
+        s2.add(op="ack", i=0, nr=1)                       # the CONNACK is released, nothing has run yet
+        s2.add(op="step", k=r.choice([0, 1, 2, 3, 4, 5, 6, 7, 8, 10]))
+        t = r.random()
+        if t < 0.45: s2.add(op="cancel_all", now=r.choice([0, 1]))
+        elif t < 0.65: s2.add(op="destroy", now=r.choice([0, 1]))
+        elif t < 0.85: s2.add(op="cancel_op", id=1, type="terminal", now=r.choice([0, 1]))
+        else: s2.add(op="disc", id=s2.oid(), rc=0, now=r.choice([0, 1])); s2.add(op="advance", ms=6000)
+        s2.add(op="unhold")
+        s2.add(op="advance", ms=r.choice([1, 30000])); s2.add(op="drain")
+        return s2.out()
     if r.random() < 0.12 and pre < 0.9:
         # async_disconnect while the connection is being re-established and a QoS 2 exchange sits in its PUBREL phase
         s.quiesce(ms=30000)
@@ -650,11 +679,18 @@ def gen_session(rng, idx):
             s.sub()
         elif k < 0.42:
             if s.held: s.add(op="unhold"); s.held = False
-        elif k < 0.50:
+        elif k < 0.48:
             # a subscription the broker refuses entirely
             s.add(op="hold", kinds=["SUBACK"]); i = s.sub(n=r.choice([1, 2]))
             n = len(s.steps[-1]["topics"])
             s.add(op="ack", i=0, codes=[r.choice([128, 135, 143]) for _ in range(n)]); s.add(op="unhold"); s.held = False
+        elif k < 0.62:
+            # a reconnect whose first attempt is refused by the broker (such a CONNACK carries Session Present 0) and
+            # whose next attempt resumes - or does not resume - the session
+            s.add(op="connack", rc=r.choice([0x88, 0x89, 0x9c, 0x87]), sp=0)
+            s.add(op="connack", sp=r.choice([1, 1, 0, -1]))
+            fault_step(s)
+            s.add(op="advance", ms=r.choice([1, 3000, 20000]))
         elif k < 0.80:
             s.add(op="connack", sp=r.choice([0, 0, 1, -1]))
             fault_step(s)
